@@ -174,6 +174,16 @@ Definition ahead_step (cfg : rcfg) (s : rstate) (p d : Z) : rstate * rout :=
   | _, _ => (s, out_nil)
   end.
 
+(* like ahead_step without the oracle restriction.  On the CURRENT code such a straggler, when it is a multiple of
+   updateRequestEvery, broadcasts itself as progress although the records between the position and it were not
+   recovered, and when it is beyond to it closes the request; a re-assignment / crash before the fresh stream catches up
+   then loses those records (known finding F11). *)
+Definition wild_step (cfg : rcfg) (s : rstate) (p d : Z) : rstate * rout :=
+  match pget p (cli s), pget p (active s) with
+  | Some n, Some _ => rec_step cfg s p (n + 1 + Z.abs d)
+  | _, _ => (s, out_nil)
+  end.
+
 (* ---- processError (recoveryconsumer.go:207-251) ---- *)
 Definition low_of (lows : pmap Z) (p : Z) : Z := match pget p lows with Some l => l | None => 0 end.
 
@@ -224,9 +234,11 @@ Inductive rop :=
 | MAssign (cerr : bool) (pcs : list (Z * (Z * Z)))    (* assignPartitions: partition, committed, high (<0: query fails) *)
 | Deliver (m : msg)                (* KafkaConsumer.Receive *)
 | Crash                            (* the instance is replaced by a new one that has read the compacted topic *)
-| RecCrash (p : Z).                (* the client delivers its next record of p and the instance stops while handling it:
+| RecCrash (p : Z)                 (* the client delivers its next record of p and the instance stops while handling it:
                                       if the record is to be emitted the handler is blocked on the send (back-pressure)
                                       when the instance dies - see rec_crash *)
+| Wild (p d : Z).                  (* an UNRESTRICTED straggler ahead of the client's position (offset n+1+|d|), possibly on the
+                                      progress-broadcast grid or beyond to - see wild_step *)
 
 Definition replay (log : list bcast) : tstate :=
   fold_left (fun t m => receive t (fst m) (snd m)) log [].
@@ -299,6 +311,7 @@ Definition rstep (cfg : rcfg) (s : rstate) (op : rop) : rstate * rout :=
       (s, {| o_emits := []; o_calls := []; o_sent := []; o_err := true; o_acks := 0; o_waits := [] |})
   | Crash => (crash_state s, out_nil)
   | RecCrash p => rec_crash cfg s p
+  | Wild p d => wild_step cfg s p d
   end.
 
 (* the run: state and output after every op *)
